@@ -165,6 +165,10 @@ func (e *c07Env) listWorld(keys []*refnote.Key, modes []int) *c07World {
 		l = append(l, v)
 	}
 	w.list = note.VerifierList(l...)
+	// the caller's slice is the caller's: reusing it afterwards must not change what the list knows
+	for i := range l {
+		l[i] = e.decoy
+	}
 	return w
 }
 
@@ -287,6 +291,7 @@ type c07Env struct {
 	col    [2]*refnote.Key // two different keys with the same name AND the same key hash
 	many   []*refnote.Key  // 110 further keys for the signature-count family
 	reals  map[*refnote.Key]note.Verifier
+	decoy  note.Verifier // a verifier for a key no case uses; written over slices handed to VerifierList
 	signer map[*refnote.Key]note.Signer
 }
 
@@ -301,6 +306,8 @@ func c07NewEnv(c *mon.Ctx) *c07Env {
 	// found offline: equal 32-bit key hash 3cdacc03 for the same name
 	e.col[0] = refnote.NewKey("alice", refnote.Seed("c07-collide", 57139))
 	e.col[1] = refnote.NewKey("alice", refnote.Seed("c07-collide", 97334))
+	dk := refnote.NewKey("decoy.example", refnote.Seed("c07-decoy", 1))
+	e.decoy = &c07Ver{name: dk.Name, hash: dk.KeyHash(), key: dk, mode: c07Honest, w: &c07World{}}
 	for i := 0; i < 110; i++ {
 		e.many = append(e.many, refnote.NewKey(fmt.Sprintf("k%d.example", i), refnote.Seed("c07-many", g.Uint64())))
 	}
@@ -525,6 +532,23 @@ func (e *c07Env) judge(id string, msg []byte, w *c07World, org *c07Origin, ctx a
 	snapshot := append([]byte{}, msg...)
 	w.log, w.lookupDiff, w.realDiff = nil, nil, nil
 	c.WAL(id, snapshot)
+	// a third of the messages are opened twice with the very same verifier objects; the second opening
+	// is the one judged, and it must end like the first (a retry of a rejected message stays rejected)
+	rehearsal := ""
+	if len(snapshot)%3 == 0 {
+		var n0 *note.Note
+		var err0 error
+		if c.Guard(id, func() any { return mon.Q(snapshot) }, func() { n0, err0 = note.Open(append([]byte{}, snapshot...), w.known()) }) {
+			res.violated = true
+			res.outcome = "panic"
+			return res
+		}
+		rehearsal = c07ErrKind(err0)
+		if err0 == nil && n0 != nil {
+			rehearsal += ":" + n0.Text
+		}
+		w.log, w.lookupDiff, w.realDiff = nil, nil, nil
+	}
 	panicked := c.Guard(id, func() any { return mon.Q(snapshot) }, func() { res.n, res.err = note.Open(msg, w.known()) })
 	c.Eval(1)
 	if panicked {
@@ -535,6 +559,18 @@ func (e *c07Env) judge(id string, msg []byte, w *c07World, org *c07Origin, ctx a
 	msg = snapshot
 	res.opened = res.err == nil
 	res.outcome = c07ErrKind(res.err)
+	if rehearsal != "" {
+		second := res.outcome
+		if res.err == nil && res.n != nil {
+			second += ":" + res.n.Text
+		}
+		if second != rehearsal {
+			res.violated = true
+			c.Violation("same-message-opens-differently-the-second-time", id, map[string]any{"msg": mon.Q(msg), "known": w.describe(), "first": mon.QS(rehearsal), "second": mon.QS(second), "case": ctx})
+		} else {
+			c.Class("opened-twice:same-outcome")
+		}
+	}
 	viol := func(class string, extra any) {
 		res.violated = true
 		c.Violation(class, id, map[string]any{"msg": mon.Q(msg), "known": w.describe(), "err": fmt.Sprint(res.err), "note": c07NoteDesc(res.n),
